@@ -231,6 +231,38 @@ def jobs_c09(prop, tier, seed):
             + compose_jobs(COMPS_DEEP, ["base", "dbg"], 4 * s, 60, rng, "deep") + known_jobs(["base"]))
 
 
+def smart_cmds(rng, n):
+    """mostly smart-pointer helpers: unique_ptr, unique_ptr<T[]>, shared_ptr, unique_base_ptr (converted from a derived
+    unique_ptr), through a type-erased reference, over the storage classes"""
+    cmds = []
+    for _ in range(n):
+        r = rng.random()
+        if r < 0.7:
+            cmds.append("%s %d %d" % (rng.choice(["uq", "ua", "sh", "ub", "ub", "sa", "sy"]), rng.choice([0, 1, 2, 3, 4, 4]), rng.choice([1, 2, 3, 7])))
+        elif r < 0.9:
+            cmds.append("rs %d" % rng.randint(0, 10))
+        else:
+            cmds.append("an %d %d" % (rng.choice([8, 16, 40]), 8))
+    return cmds
+
+
+def xfer_cmds(rng, n):
+    """adapters as stateful allocators that are moved: requests, move assignment into a differently configured spare
+    and move construction back (xm), releases through the new owner"""
+    cmds = []
+    for _ in range(n):
+        r = rng.random()
+        if r < 0.4:
+            cmds.append("an %d %d" % (rng.choice(SIZES[:-2]), rng.choice(ALIGNS)))
+        elif r < 0.5:
+            cmds.append("aa %d %d %d" % (rng.choice([1, 2, 3]), rng.choice([8, 16, 40]), rng.choice(ALIGNS)))
+        elif r < 0.7:
+            cmds.append("xm")
+        else:
+            cmds.append("d %d" % rng.randint(0, 30))
+    return cmds
+
+
 def extra_jobs(prop, tier, seed):
     """compositions run by the checks of other properties: C03 (the composable interface of fallback chains never throws
     and never grows anything), C05 (deeply tracked library allocators give every block back)"""
@@ -238,6 +270,12 @@ def extra_jobs(prop, tier, seed):
     s = 1 if tier == "quick" else 20
     if prop == "C03":
         return compose_jobs(COMPS_FB, ["base"], 3 * s, 40, rng, "fallback")
+    if prop == "C10":   # unique_ptr / shared_ptr helpers give each object back to the allocator it came from, as it was taken
+        return [Job(cfg, "compose", "ForwardTrace", [({"comp": name}, smart_cmds(rng, 40)) for name in sorted(SMART_OK) for _ in range(2 * s)], "smart")
+                for cfg in ("base", "dbg")]
+    if prop == "C12":   # adapters are stateful allocators too: moved, they release through the new owner as they allocated
+        return [Job(cfg, "compose", "ForwardTrace", [({"comp": name}, xfer_cmds(rng, 40)) for name in sorted(XFER_OK) for _ in range(2 * s)], "xfer")
+                for cfg in ("base", "dbg")]
     return compose_jobs(COMPS_DEEP + ["fb_pool", "fb_apool", "fb_coll"], ["base"], 3 * s, 50, rng, "deep")
 
 
